@@ -61,7 +61,16 @@ static std::vector<GCase> gcase_shrinks(const GCase& c, const vj::Value& detail)
     if (c.inputs.size() <= 4)
     {
         for (size_t k = 0; k < c.inputs.size(); ++k)
-            for (size_t p = 0; p < c.inputs[k].text.size(); ++p) { GCase d = c; d.inputs[k].text.erase(p, 1); out.push_back(d); }
+        {
+            size_t n = c.inputs[k].text.size();
+            if (n > 64)     // long inputs: delete chunks (halves, quarters, ...), never one candidate per byte
+            {
+                for (size_t chunk = n / 2; chunk >= 16; chunk /= 2)
+                    for (size_t p = 0; p + chunk <= n && out.size() < 400; p += chunk) { GCase d = c; d.inputs[k].text.erase(p, chunk); out.push_back(d); }
+                continue;
+            }
+            for (size_t p = 0; p < n; ++p) { GCase d = c; d.inputs[k].text.erase(p, 1); out.push_back(d); }
+        }
         for (size_t r = 0; r < c.g.rules.size(); ++r) if (c.g.rules[r].has_prec) { GCase d = c; d.g.rules[r].has_prec = false; d.g.rules[r].prec = 0; out.push_back(d); }
         for (int t = 0; t < c.g.nT; ++t) if (c.g.tprec[size_t(t)] || c.g.tassoc[size_t(t)]) { GCase d = c; d.g.tprec[size_t(t)] = 0; d.g.tassoc[size_t(t)] = ref::NONE; out.push_back(d); }
         for (size_t k = 0; k < c.inputs.size(); ++k)
